@@ -54,6 +54,9 @@
 //! }
 //! ```
 
+// `excsn_fibre_verif` is a verification-only cfg passed via RUSTFLAGS.
+#![allow(unexpected_cfgs)]
+
 mod container;
 mod core;
 mod global;
